@@ -12,14 +12,17 @@ ENUM_TOP = int(_os.environ.get("VERIF_ENUM_TOP", "6"))  # largest coordinate of 
 ID = "C06"
 LEVEL = "exploration"
 RULE = (
-    "(a) bounded-exhaustive: every pair (A, B) of multisets of <=2 intervals over coordinates 0..4 (quick; 66x66 pairs) "
-    "or <=2 x <=3 over 0..6 (thorough; 253x2024 pairs), each in 4 variants (plain; gene column + a row on a second "
-    "chromosome in A; in B; in both), plus every multiset of <=3 intervals over 0..6 for the unary operations with a "
-    "grid of bp/avg/min/resize values; (b) Hypothesis: relation-biased tables (disjoint/abutting/overlapping/nested/"
-    "duplicate) of up to 40 rows, coordinates to 1e6, extra columns, chromosomes present in one table only, arbitrary "
-    "bp, avg_size, min_size, resize amounts with and without chromosome sizes. Oracle: per-chromosome base-pair run "
-    "algebra (union / difference / intersection of half-open intervals) written independently. Non-trivial = some row "
-    "overlaps, abuts or nests with a row of the other table (pair) or of its own table (unary); distinct = distinct case JSON."
+    "(a) bounded-exhaustive: every pair (A, B) of multisets of <=2 intervals over coordinates 0..4 (quick; 66x66 "
+    "pairs) or <=2 x <=3 over 0..6 (thorough; 253x2024 pairs), each in 4 variants (plain; gene column + a row on "
+    "a second chromosome in A; in B; in both), plus every multiset of <=3 intervals over 0..6 for the unary "
+    "operations with a grid of bp/avg/min/resize values; (b) Hypothesis: relation-biased tables "
+    "(disjoint/abutting/overlapping/nested/duplicate) of up to 40 rows, coordinates to 1e6, extra columns, "
+    "chromosomes present in one table only, arbitrary bp, avg_size, min_size, resize amounts with and without "
+    "chromosome sizes. Half of the cases are moved to 3e8 / around 2^31 / 2^32; start/end arrive as int64, int32, "
+    "uint32, uint64 or float64 columns; row labels default, shifted, stepped or repeated. Oracle: per-chromosome "
+    "base-pair run algebra (union / difference / intersection of half-open intervals) written independently. "
+    "Non-trivial = some row overlaps, abuts or nests with a row of the other table (pair) or of its own table "
+    "(unary); distinct = distinct case JSON."
 )
 QUICK = {"examples": 1600, "shards": 16, "budget_s": 300}
 THOROUGH = {"examples": 24000, "shards": 16, "budget_s": 3000}
